@@ -84,7 +84,7 @@ fn flat_items(s: &StateSpec) -> Vec<ItemSpec> {
 
 fn judge(s: &StateSpec) -> CaseResult {
     let reg: BTreeSet<String> = crate::exec::registry_names().into_iter().collect();
-    let r = lockstep("C07", s, 400, &reg, &|_| false)?;
+    let r = lockstep("C07", s, 400, &reg, &|_, _| false)?;
     // non-trivial: a define followed by a later use of the same name
     let items = flat_items(s);
     let mut defined: BTreeSet<String> = BTreeSet::new();
@@ -180,8 +180,9 @@ pub fn run(ctx: &Ctx) -> PropReport {
         "programs over {value literals of the eight defining types (pools incl. NaN, empty vectors, nested code), four names, T.DEFINE, NAME.QUOTE, CODE.QUOTE, CODE.DEFINITION, NAME.POP/DUP, CODE.DO}: interleavings of define / use / quote / redefine up to 14 tokens, executed to completion; non-trivial = a definition followed by a later use of the same name; distinct = program digest (exhaustive part: counted)",
         "REF oracle: binding map + quote flag + typed stacks (reference interpreter), compared lock-step after every step on the whole snapshot including name_bindings and quote_name.",
     );
-    rep.push(exhaustive(ctx, ctx.tier.pick(4, 6)));
-    rep.push(run_sharded(ctx, "random", ctx.tier.pick(20_000, 600_000), program, judge, |s| json!({"state": s.to_json(), "program": s.exec.iter().map(|x| x.render()).collect::<Vec<_>>().join(" ")})));
+    rep.push(exhaustive(ctx, ctx.tier.pick(5, 6)));
+    rep.push(run_sharded(ctx, "random", ctx.tier.pick(100_000, 1_000_000), program, judge, |s| json!({"state": s.to_json(), "program": s.exec.iter().map(|x| x.render()).collect::<Vec<_>>().join(" ")})));
+    rep.push(crate::props::incontext::run(ctx, ctx.tier.pick(40_000, 600_000)));
     rep
 }
 
